@@ -23,6 +23,10 @@ theorem facts_fresh : Facts.c20FactsStale = false := rfl
 /-- The walk callback does not apply its directory test to the hooks directory itself. -/
 theorem root_exempt : Facts.c20RootExempt = true := rfl
 
+/-- `Init` gives the walk the hooks directory and nothing else: the only excluded directory names are
+file.go's own (`tables_documented`: `lib`), none is added by the caller through the variadic parameter. -/
+theorem init_adds_no_excluded_dirs : Facts.c20InitWalkArgs = ["hm.workingDir"] := rfl
+
 /-- **The property's wording.** `p` is the path of a file under the hooks directory that carries an
 execute bit, whose name neither starts with a dot nor ends in .yaml/.json/.md/.txt, and none of the
 sub-directories it lies below is named `lib` or is hidden. -/
@@ -188,7 +192,74 @@ theorem every_start_exact (rootPath : Path) (trees : List (Name × List Tree)) (
     simp [List.getElem?_map, List.getElem?_eq_getElem hk]
   · intro p; exact discover_iff rootPath _ _ p
 
+/-- **C20.5 `run_ok_iff`** "a hook whose `--config` run fails": the run of a hook counts as successful
+only if the process was started, exited with status 0 and printed a valid configuration. A start
+failure, EVERY other exit status and death by ANY signal make it fail, whatever had been printed. -/
+theorem run_ok_iff (e : RunEnd) (v : Bool) : loadOutcome e v = .ok ↔ (e = .exited 0 ∧ v = true) := by
+  cases e with
+  | notStarted => simp [loadOutcome, cmdErr]
+  | signaled s => simp [loadOutcome, cmdErr]
+  | exited n =>
+    cases n with
+    | zero => cases v <;> simp [loadOutcome, cmdErr]
+    | succ k => simp [loadOutcome, cmdErr]
+
+/-- **C20.6 `init_fails_on_unsuccessful_run`** For every tree, every way each `--config` process ends
+(`ends`) and every verdict on what it printed (`valid`): if the hooks before `p` in load order ran
+successfully and the run of `p` did not (not started, non-zero status, killed by a signal — even after
+printing a valid configuration — or invalid output), then `Init` fails with an error naming `p`, `p` is
+the last file asked, exactly the hooks before it are loaded and no later hook is asked. -/
+theorem init_fails_on_unsuccessful_run (rootPath : Path) (root : Tree) (hw : wfRoot root)
+    (ends : Path → RunEnd) (valid : Path → Bool) (pre : List Path) (p : Path) (post : List Path)
+    (ho : loadOrder rootPath root = pre ++ p :: post)
+    (hpre : ∀ q ∈ pre, ends q = .exited 0 ∧ valid q = true)
+    (hp : ends p ≠ .exited 0 ∨ valid p = false) :
+    let r := init rootPath root (fun q => loadOutcome (ends q) (valid q))
+    r.err = some p ∧ r.asked = pre ++ [p] ∧ r.loaded = pre.map (relName rootPath) ∧ ∀ q ∈ post, q ∉ r.asked := by
+  intro r
+  have h := (init_config_once rootPath root hw (fun q => loadOutcome (ends q) (valid q))).2.2.2 pre p post ho
+    (fun q hq => (run_ok_iff _ _).mpr (hpre q hq))
+    (by
+      intro hok
+      have := (run_ok_iff _ _).mp hok
+      rcases hp with h1 | h2
+      · exact h1 this.1
+      · rw [this.2] at h2; exact Bool.noConfusion h2)
+  exact ⟨h.2.1, h.1, h.2.2.1, h.2.2.2⟩
+
+/-- **C20.7 `symlink_to_executable_is_hook`** A symbolic link (what the walk's `Lstat` shows: a
+non-directory entry with the permission bits 0777) whose name is neither hidden nor carries an excluded
+extension and that does not lie below a `lib` or hidden sub-directory is discovered — e.g. every
+`hook.sh -> ..data/hook.sh` of a mounted ConfigMap volume. -/
+theorem symlink_to_executable_is_hook (rootPath : Path) (rn : Name) (cs : List Tree) (e : Entry)
+    (he : e ∈ entries rootPath (.dir rn cs)) (hm : e.mode = lstatLinkMode)
+    (hn : ¬ bytesOf "." <+: e.name)
+    (hx : ∀ x ∈ [".yaml", ".json", ".md", ".txt"], ¬ bytesOf x <:+ e.name)
+    (hd : ∀ d ∈ e.dirs, d ≠ bytesOf "lib" ∧ ¬ bytesOf "." <+: d) :
+    e.path ∈ discover rootPath (.dir rn cs) := by
+  rw [discover_iff]
+  exact ⟨e, he, rfl, by rw [hm]; decide, hn, hx, hd⟩
+
 /-! ### Non-vacuity and witnesses -/
+
+/-- killed by SIGKILL / SIGSEGV after printing a valid configuration, exit status 255, not started: all fail -/
+example : loadOutcome (.signaled 9) true = .fail ∧ loadOutcome (.signaled 11) true = .fail ∧
+    loadOutcome (.exited 255) true = .fail ∧ loadOutcome .notStarted true = .fail ∧
+    loadOutcome (.exited 0) true = .ok ∧ loadOutcome (.exited 0) false = .invalid := by decide
+
+/-- `a.sh`, `sub/b.sh`, `z.sh`; the run of `sub/b.sh` prints a valid configuration and is killed: Init
+names it, `z.sh` is not asked -/
+example : let root := Tree.dir (bytesOf "h") [.file (bytesOf "a.sh") 0o755 .ok,
+      .dir (bytesOf "sub") [.file (bytesOf "b.sh") 0o755 (loadOutcome (.signaled 9) true)], .file (bytesOf "z.sh") 0o755 .ok]
+    (init (bytesOf "h") root (outcomeAt (bytesOf "h") root)).asked = [bytesOf "h/a.sh", bytesOf "h/sub/b.sh"] ∧
+    (init (bytesOf "h") root (outcomeAt (bytesOf "h") root)).err = some (bytesOf "h/sub/b.sh") := by decide
+
+/-- the ConfigMap layout: the real file below a hidden directory is not a hook, the links `..data`
+(hidden name) is not, the link `hook.sh` is -/
+example : discover (bytesOf "h") (.dir (bytesOf "h")
+    [.dir (bytesOf "..2026") [.file (bytesOf "hook.sh") 0o755 .ok], .link (bytesOf "..data") .ok,
+     .link (bytesOf "hook.sh") .ok, .dir (bytesOf "lib") [.link (bytesOf "x") .ok]]) = [bytesOf "h/hook.sh"] := by decide
+
 
 /-- a tree with a hook in the root, one in a sub-directory, a `lib` directory, a hidden directory,
 a non-executable file, an excluded extension, and a byte-order trap (`a.sh` < `a/b`). -/
